@@ -582,7 +582,9 @@ class FitMulti(BaseFitter):
             for i in range(self.prior.N_sources):
                 results_dict[f"source_{i}"] = {}
                 for pname in base_profile_params[self.prior.catalog["type"][i]]:
-                    results_dict[f"source_{i}"][pname] = raw_dict.pop(pname + f"_{i:d}")
+                    results_dict[f"source_{i}"][pname] = raw_dict.pop(
+                        pname + f"_{i:d}{self.prior.suffix}"
+                    )
             results_dict.update(raw_dict)
         else:
             results_dict = raw_dict
